@@ -228,4 +228,284 @@ theorem valueSpecF_paren (e : FExprU) (ho : OpSpecF e) : ValueSpecF (.paren e) :
   · have hle : s.b.forest.length ≤ s1.b.forest.length := by omega
     exact e1.trans (((e2.trans e25).trans (hl1 ▸ e6)).mono hle)
 
+/-! ### Calls -/
+
+/-- `operation` on a single NUMBER token followed — after a blank — by `)`, `,` or the end: one
+loop iteration, nothing to close. -/
+theorem operation_numberF {s : PState} (Wa Wk K' : List Token) (txt : List Char)
+    (hg : C06.Good s.b) (ht : s.toks = Wa ++ (⟨.NUMBER, txt⟩ :: (Wk ++ K'))) (hwa : AllWS Wa)
+    (hwk : AllWS Wk) (hend : EndKindC (headKind K')) :
+    Tot (operation (0 + 2 + 1 + 1) Wa.length) s (fun r s' => ∃ Wt id id', r = some Wk.length ∧
+      s'.toks = Wk ++ K' ∧
+      s'.b.forest = s.b.forest ++ Wt ++ [.node id .NUMBER [.tok id' .NUMBER txt]] ∧ WSTrees Wt ∧
+      C06.Good s'.b ∧ NoNext s'.b ∧ Ext s.b.forest.length s.b s'.b) := by
+  unfold operation
+  refine tot_seq (checkpoint_exact hg) fun opn s1 ⟨ht1, hf1, _, g1, p1, e1⟩ => ?_
+  rw [opLoop_unfold _ _ _ _ _ rfl]
+  refine tot_seq (value_numC 0 Wa txt (Wk ++ K') (ht1.trans ht) hwa
+    ⟨Wk, K', rfl, hwk, endKindC_follow hend⟩ g1)
+    fun r s2 ⟨cur, Wt, id, id', hr, ht2, hf2, hWt, _, _, g2, n2, e2⟩ => ?_
+  subst hr
+  simp only
+  unfold afterValue
+  refine tot_countSkip_ws Wk K' ht2 hwk (followKindC_notWS (endKindC_follow hend)) ?_
+  refine tot_nth_ws Wk K' ht2 ?_
+  have : opInfo (headKind K') = none := by
+    rcases hend with h | h | h <;> rw [h] <;> rfl
+  simp only [this, closeAll]
+  refine tot_seq (tot_pure (Q := fun _ s' => s' = s2) rfl) fun _ s3 hs => ?_
+  subst hs
+  exact tot_pure ⟨Wt, id, id', rfl, ht2, by rw [hf2, hf1], hWt, g2, n2, e1.trans (hf1 ▸ e2)⟩
+
+/-- `callArguments` around any run of `argsLoop` that stops before a blank and `)`: an
+FN_ARGUMENTS node around what the loop built, then the blank and the closing parenthesis. -/
+theorem callArguments_wrap {Fa : Nat} {s : PState} {Wk K : List Token} {R : List Tree → Prop}
+    (hg : C06.Good s.b) (hwk : AllWS Wk)
+    (ha : ∀ s1 : PState, s1.toks = s.toks → C06.Good s1.b →
+      Tot (argsLoop Fa) s1 (fun r s' => ∃ A, r = some Wk.length ∧
+        s'.toks = Wk ++ ⟨.CLOSE_PAREN, [')']⟩ :: K ∧ s'.b.forest = s1.b.forest ++ A ∧ A ≠ [] ∧
+        R A ∧ C06.Good s'.b ∧ NoNext s'.b ∧ Ext s1.b.forest.length s1.b s'.b)) :
+    Tot (callArguments (Fa + 1)) s (fun r s' => ∃ aid aks tail, r = true ∧ s'.toks = K ∧
+      s'.b.forest = s.b.forest ++ [.node aid .FN_ARGUMENTS aks] ++ tail ∧ opKids tail = [] ∧
+      R aks ∧ C06.Good s'.b ∧ NoNext s'.b ∧ Ext s.b.forest.length s.b s'.b) := by
+  unfold callArguments
+  refine tot_seq (checkpoint_exact hg) fun c s1 ⟨ht1, hf1, _, g1, p1, e1⟩ => ?_
+  refine tot_seq (ha s1 ht1 g1) fun r s2 ⟨A, hr, ht2, hf2, hAne, hA, g2, n2, e2⟩ => ?_
+  subst hr
+  simp only
+  have p2 : Pos s2.b c s.b.forest.length := hf1 ▸ e2.pos c _ (Nat.le_refl _) (hf1 ▸ p1)
+  refine tot_seq (closeAt_wrap .FN_ARGUMENTS g2 n2 p2 (by
+    rw [hf2, hf1]
+    have := List.length_pos_of_ne_nil hAne
+    simp; omega)) fun _ s3 ⟨ht3, ⟨aid, hf3⟩, g3, _, _, e3⟩ => ?_
+  have hf3' : s3.b.forest = s.b.forest ++ [.node aid .FN_ARGUMENTS A] := by
+    rw [hf3, hf2, hf1, List.take_left' rfl, List.drop_left' rfl]
+  refine tot_mono (eat_yes _ ⟨.CLOSE_PAREN, [')']⟩ K .CLOSE_PAREN (ht3.trans ht2) hwk rfl g3)
+    fun b s4 ⟨hb, ht4, ⟨Fw, idc, hf4, hFw, _⟩, g4, n4, e4⟩ => ?_
+  refine ⟨aid, A, Fw ++ [.tok idc .CLOSE_PAREN [')']], hb, ht4,
+    by rw [hf4, hf3']; simp, ?_, hA, g4, n4, ?_⟩
+  · rw [opKids_append, opKids_ws hFw, opKids_tok]; rfl
+  · exact e1.trans (((hf1 ▸ e2).trans e3).trans (e4.mono (by rw [hf3']; simp)))
+
+/-- `Grammar.value` on a WORD token glued to `(`: a function name; around any run of
+`callArguments` the tree is an FN_CALL node `[FN_NAME, (, FN_ARGUMENTS …, )]`. -/
+theorem value_callG (f : Fn) {Fc : Nat} {s : PState} {W0 T K : List Token}
+    {R : List Tree → Prop} (hg : C06.Good s.b)
+    (ht : s.toks = W0 ++ (⟨.WORD, f.name⟩ :: ⟨.OPEN_PAREN, ['(']⟩ :: T)) (hw0 : AllWS W0)
+    (hR : ∀ aks, R aks → ∃ x r, opKids aks = x :: r)
+    (hc : ∀ s6 : PState, s6.toks = T → C06.Good s6.b →
+      Tot (callArguments Fc) s6 (fun r s' => ∃ aid aks tail, r = true ∧ s'.toks = K ∧
+        s'.b.forest = s6.b.forest ++ [.node aid .FN_ARGUMENTS aks] ++ tail ∧ opKids tail = [] ∧
+        R aks ∧ C06.Good s'.b ∧ NoNext s'.b ∧ Ext s6.b.forest.length s6.b s'.b)) :
+    Tot (Grammar.value (Fc + 1) W0.length) s (fun r s' => ∃ cur Wt idc ks nm aid aks,
+      r = some cur ∧ s'.toks = K ∧ s'.b.forest = s.b.forest ++ Wt ++ [.node idc .FN_CALL ks] ∧
+      WSTrees Wt ∧ opKids ks = [nm, .node aid .FN_ARGUMENTS aks] ∧ nm.kind = .FN_NAME ∧
+      nm.text = f.name ∧ R aks ∧
+      Pos s'.b cur (s.b.forest.length + Wt.length) ∧ C06.Good s'.b ∧ NoNext s'.b ∧
+      Ext s.b.forest.length s.b s'.b) := by
+  unfold Grammar.value
+  refine tot_nth_ws W0 _ ht ?_
+  simp only [headKind]
+  refine tot_seq (bumpN_ws W0 ht hw0 hg) fun _ s1 ⟨ht1, ⟨Wt, hf1, hWt, hlen⟩, g1, _, e1⟩ => ?_
+  refine tot_seq (checkpoint_exact g1) fun start s2 ⟨ht2, hf2, _, g2, p2, e2⟩ => ?_
+  refine tot_seq (checkpoint_exact g2) fun c s3 ⟨ht3, hf3, _, g3, p3, e3⟩ => ?_
+  have ht3' := (ht3.trans ht2).trans ht1
+  refine tot_seq (bumpNode_exact .WORD ht3' g3) fun _ s4 ⟨ht4, ⟨idw, idt, hf4⟩, g4, n4, e4⟩ => ?_
+  have ht4' : s4.toks = [] ++ (⟨.OPEN_PAREN, ['(']⟩ :: T) := ht4
+  refine tot_nth_ws [] _ ht4' ?_
+  simp only [headKind, beq_self_eq_true, ↓reduceIte]
+  have hl1 : s1.b.forest.length = s.b.forest.length + Wt.length := by rw [hf1]; simp
+  have hl2 : s2.b.forest.length = s1.b.forest.length := by rw [hf2]
+  have hl3 : s3.b.forest.length = s1.b.forest.length := by rw [hf3, hf2]
+  have hf4' : s4.b.forest = (s.b.forest ++ Wt) ++ [.node idw .WORD [.tok idt .WORD f.name]] := by
+    rw [hf4, hf3, hf2, hf1]
+  have e3' : Ext s1.b.forest.length s2.b s3.b := hl2 ▸ e3
+  have e4' : Ext s1.b.forest.length s3.b s4.b := hl3 ▸ e4
+  have p4 : Pos s4.b c (s.b.forest.length + Wt.length) :=
+    hl1 ▸ e4'.pos c _ (Nat.le_refl _) (hl2 ▸ p3)
+  refine tot_seq (closeAt_wrap .FN_NAME g4 n4 p4 (by rw [hf4']; simp))
+    fun _ s5 ⟨ht5, ⟨idn, hf5⟩, g5, _, _, e5⟩ => ?_
+  have hl : s.b.forest.length + Wt.length = (s.b.forest ++ Wt).length := by simp
+  rw [hf4', hl, List.take_left' rfl, List.drop_left' rfl] at hf5
+  refine tot_seq (bump_exact (ht5.trans ht4) g5) fun _ s6 ⟨ht6, ⟨idp, hf6⟩, g6, _, e6⟩ => ?_
+  refine tot_seq (hc s6 ht6 g6)
+    fun r s7 ⟨aid, aks, tail, hr, ht7, hf7, htail, haks, g7, n7, e7⟩ => ?_
+  subst hr
+  simp only [Bool.not_true, Bool.false_eq_true, ↓reduceIte]
+  have e5' : Ext s1.b.forest.length s4.b s5.b := hl1 ▸ e5
+  have e6' : Ext s1.b.forest.length s5.b s6.b := e6.mono (by rw [hf5, hl1]; simp)
+  have e7' : Ext s1.b.forest.length s6.b s7.b := e7.mono (by rw [hf6, hf5, hl1]; simp)
+  have e27 : Ext s1.b.forest.length s2.b s7.b :=
+    (((e3'.trans e4').trans e5').trans e6').trans e7'
+  have p7 : Pos s7.b c (s.b.forest.length + Wt.length) :=
+    hl1 ▸ ((e4'.trans e5').trans (e6'.trans e7')).pos c _ (Nat.le_refl _) (hl2 ▸ p3)
+  have hf7' : s7.b.forest = (s.b.forest ++ Wt) ++
+      (.node idn .FN_NAME [.node idw .WORD [.tok idt .WORD f.name]] ::
+        .tok idp .OPEN_PAREN ['('] :: .node aid .FN_ARGUMENTS aks :: tail) := by
+    rw [hf7, hf6, hf5]; simp
+  refine tot_seq (closeAt_wrap .FN_CALL g7 n7 p7 (by rw [hf7']; simp))
+    fun _ s8 ⟨ht8, ⟨idc, hf8⟩, g8, n8, _, e8⟩ => ?_
+  rw [hf7', hl, List.take_left' rfl, List.drop_left' rfl] at hf8
+  have e28 : Ext s1.b.forest.length s2.b s8.b := e27.trans (hl1 ▸ e8)
+  refine tot_pure ⟨start, Wt, idc, _, .node idn .FN_NAME [.node idw .WORD [.tok idt .WORD f.name]],
+    aid, aks, rfl, ht8.trans ht7, hf8, hWt, ?_, rfl, ?_, haks,
+    hl1 ▸ e28.pos start _ (Nat.le_refl _) p2, g8, n8,
+    e1.trans ((e2.trans e28).mono (by omega))⟩
+  · have hnm : opKids [Tree.node idn .FN_NAME [.node idw .WORD [.tok idt .WORD f.name]]] =
+        [Tree.node idn .FN_NAME [.node idw .WORD [.tok idt .WORD f.name]]] := rfl
+    have hsplit : (Tree.node idn .FN_NAME [.node idw .WORD [.tok idt .WORD f.name]] ::
+          .tok idp .OPEN_PAREN ['('] :: .node aid .FN_ARGUMENTS aks :: tail) =
+        [Tree.node idn .FN_NAME [.node idw .WORD [.tok idt .WORD f.name]]] ++
+          [.tok idp .OPEN_PAREN ['(']] ++ [.node aid .FN_ARGUMENTS aks] ++ tail := by simp
+    obtain ⟨x0, r0, hx0⟩ := hR aks haks
+    rw [hsplit]
+    simp only [opKids_append, hnm, opKids_tok, htail, List.append_nil]
+    rw [opKids_single (node_hasChildren hx0)]
+    rfl
+  · simp [Tree.text, Tree.textList]
+
+/-- `argsLoop` on the one argument `e` followed by a blank and the closing parenthesis. -/
+theorem argsLoop_oneF {e : FExprU} {Fo : Nat}
+    (ho : ∀ (ws : Layout) (s : PState) (W0 Wk K' : List Token), WFF e → LayoutOKF e ws →
+      C06.Good s.b →
+      s.toks = W0 ++ (toksF e ws ++ (Wk ++ K')) → AllWS W0 → AllWS Wk → EndKindC (headKind K') →
+      Tot (operation Fo W0.length) s (fun r s' => ∃ Wt x, r = some Wk.length ∧
+        s'.toks = Wk ++ K' ∧
+        s'.b.forest = s.b.forest ++ Wt ++ [x] ∧ WSTrees Wt ∧ RepF x e ∧
+        C06.Good s'.b ∧ NoNext s'.b ∧ Ext s.b.forest.length s.b s'.b))
+    (ws : Layout) (s : PState) (Wa Wk K : List Token) (hwf : WFF e) (hlay : LayoutOKF e ws)
+    (hg : C06.Good s.b)
+    (ht : s.toks = Wa ++ (toksF e ws ++ (Wk ++ ⟨.CLOSE_PAREN, [')']⟩ :: K))) (hwa : AllWS Wa)
+    (hwk : AllWS Wk) :
+    Tot (argsLoop (Fo + 1)) s (fun r s' => ∃ A, r = some Wk.length ∧
+      s'.toks = Wk ++ ⟨.CLOSE_PAREN, [')']⟩ :: K ∧ s'.b.forest = s.b.forest ++ A ∧ A ≠ [] ∧
+      (∃ x, opKids A = [x] ∧ RepF x e) ∧
+      C06.Good s'.b ∧ NoNext s'.b ∧ Ext s.b.forest.length s.b s'.b) := by
+  unfold argsLoop
+  refine tot_countSkip_ws Wa _ ht hwa (toksF_notWS e ws _ hwf) ?_
+  refine tot_nth_ws Wa _ ht ?_
+  simp only [headKind_toksF_ne_close e ws _ hwf, Bool.false_eq_true, ↓reduceIte]
+  refine tot_seq (ho ws s Wa Wk (⟨.CLOSE_PAREN, [')']⟩ :: K) hwf hlay hg ht hwa hwk (Or.inl rfl))
+    fun r s1 ⟨Wt, x, hr, ht1, hf1, hWt, hx, g1, n1, e1⟩ => ?_
+  subst hr
+  simp only
+  have hno := eat_no (s := s1) Wk (⟨.CLOSE_PAREN, [')']⟩ :: K) .COMMA ht1 (by simp [headKind])
+  refine ⟨some Wk.length, s1, ?_, Wt ++ [x], rfl, ht1, by rw [hf1]; simp, by simp, ⟨x, ?_, hx⟩,
+    g1, n1, e1⟩
+  · simp only [bind, hno]; rfl
+  · rw [opKids_append, opKids_ws hWt, opKids_single (hasChildren_of_repF hx)]; rfl
+
+/-- `argsLoop` on the two arguments `e , n` followed by a blank and the closing parenthesis. -/
+theorem argsLoop_twoF {e : FExprU} {Fo : Nat}
+    (ho : ∀ (ws : Layout) (s : PState) (W0 Wk K' : List Token), WFF e → LayoutOKF e ws →
+      C06.Good s.b →
+      s.toks = W0 ++ (toksF e ws ++ (Wk ++ K')) → AllWS W0 → AllWS Wk → EndKindC (headKind K') →
+      Tot (operation Fo W0.length) s (fun r s' => ∃ Wt x, r = some Wk.length ∧
+        s'.toks = Wk ++ K' ∧
+        s'.b.forest = s.b.forest ++ Wt ++ [x] ∧ WSTrees Wt ∧ RepF x e ∧
+        C06.Good s'.b ∧ NoNext s'.b ∧ Ext s.b.forest.length s.b s'.b))
+    (n : Literal) (ws : Layout) (s : PState) (Wa W1 W2 W3 K : List Token) (hwf : WFF e)
+    (hlay : LayoutOKF e ws) (hg : C06.Good s.b)
+    (ht : s.toks = Wa ++ (toksF e ws ++ (W1 ++ (⟨.COMMA, [',']⟩ ::
+      (W2 ++ (⟨.NUMBER, renderNumber n⟩ :: (W3 ++ ⟨.CLOSE_PAREN, [')']⟩ :: K)))))))
+    (hwa : AllWS Wa) (hw1 : AllWS W1) (hw2 : AllWS W2) (hw3 : AllWS W3) :
+    Tot (argsLoop (Fo + ((0 + 2 + 1 + 1) + 1) + 1)) s (fun r s' => ∃ A, r = some W3.length ∧
+      s'.toks = W3 ++ ⟨.CLOSE_PAREN, [')']⟩ :: K ∧ s'.b.forest = s.b.forest ++ A ∧ A ≠ [] ∧
+      (∃ x y, opKids A = [x, y] ∧ RepF x e ∧ y.kind = .NUMBER ∧ y.hasChildren = true ∧
+        y.text = renderNumber n) ∧
+      C06.Good s'.b ∧ NoNext s'.b ∧ Ext s.b.forest.length s.b s'.b) := by
+  unfold argsLoop
+  refine tot_countSkip_ws Wa _ ht hwa (toksF_notWS e ws _ hwf) ?_
+  refine tot_nth_ws Wa _ ht ?_
+  simp only [headKind_toksF_ne_close e ws _ hwf, Bool.false_eq_true, ↓reduceIte]
+  refine tot_seq (tot_le (le_operation (Nat.le_add_right Fo ((0 + 2 + 1 + 1) + 1)) _)
+    (ho ws s Wa W1 (⟨.COMMA, [',']⟩ :: _) hwf hlay hg ht hwa hw1 (Or.inr (Or.inl rfl))))
+    fun r s1 ⟨Wt, x, hr1, ht1, hf1, hWt, hx, g1, _, e1⟩ => ?_
+  subst hr1
+  simp only
+  refine tot_seq (eat_yes _ _ _ .COMMA ht1 hw1 rfl g1)
+    fun b s2 ⟨hb, ht2, ⟨Fw, idc, hf2, hFw, _⟩, g2, _, e2⟩ => ?_
+  subst hb
+  simp only [Bool.not_true, Bool.false_eq_true, ↓reduceIte]
+  -- the second round: the number
+  refine tot_le (le_argsLoop (show (0 + 2 + 1 + 1) + 1 ≤ Fo + ((0 + 2 + 1 + 1) + 1) by omega)) ?_
+  unfold argsLoop
+  have hnw : NotWSHead (⟨.NUMBER, renderNumber n⟩ :: (W3 ++ ⟨.CLOSE_PAREN, [')']⟩ :: K)) := by
+    intro t r h
+    cases h
+    simp
+  refine tot_countSkip_ws _ _ ht2 hw2 hnw ?_
+  refine tot_nth_ws _ _ ht2 ?_
+  have hk : (headKind (⟨.NUMBER, renderNumber n⟩ :: (W3 ++ ⟨.CLOSE_PAREN, [')']⟩ :: K)) ==
+      Syntax.CLOSE_PAREN) = false := rfl
+  simp only [hk, Bool.false_eq_true, ↓reduceIte]
+  refine tot_seq (operation_numberF W2 W3 (⟨.CLOSE_PAREN, [')']⟩ :: K) (renderNumber n) g2 ht2 hw2
+    hw3 (Or.inl rfl)) fun r s3 ⟨Wt3, id, id', hr3, ht3, hf3, hWt3, g3, n3, e3⟩ => ?_
+  subst hr3
+  simp only
+  have hno := eat_no (s := s3) W3 (⟨.CLOSE_PAREN, [')']⟩ :: K) .COMMA ht3 (by simp [headKind])
+  have hyc : (Tree.node id .NUMBER [.tok id' .NUMBER (renderNumber n)]).hasChildren = true := rfl
+  refine ⟨some _, s3, ?_, Wt ++ [x] ++ Fw ++ [.tok idc .COMMA [',']] ++ Wt3 ++
+      [.node id .NUMBER [.tok id' .NUMBER (renderNumber n)]], rfl, ht3,
+    by rw [hf3, hf2, hf1]; simp, by simp,
+    ⟨x, .node id .NUMBER [.tok id' .NUMBER (renderNumber n)], ?_, hx, rfl, hyc, ?_⟩, g3, n3, ?_⟩
+  · simp only [bind, hno]; rfl
+  · simp only [opKids_append, opKids_ws hWt, opKids_ws hFw, opKids_ws hWt3, opKids_tok,
+      opKids_single (hasChildren_of_repF hx), opKids_single hyc,
+      List.nil_append, List.append_nil]
+    rfl
+  · simp [Tree.text, Tree.textList]
+  · have h12 : s.b.forest.length ≤ s1.b.forest.length := by rw [hf1]; simp
+    have h13 : s.b.forest.length ≤ s2.b.forest.length := by rw [hf2, hf1]; simp
+    exact (e1.trans (e2.mono h12)).trans (e3.mono h13)
+
+/-- **`Grammar.value` on a builtin call** `f(arg)` / `f(arg, n)`: the argument is read by
+`operation` inside `callArguments` (ended by `)` resp. `,`), the precision as a one-token
+expression. No condition on what follows: the closing parenthesis ends the call. -/
+theorem valueSpecF_call (f : Fn) (arg : FExprU) (prec : Option Literal) (ho : OpSpecF arg) :
+    ValueSpecF (.call f arg prec) := by
+  obtain ⟨Fo, ho⟩ := ho
+  cases prec with
+  | none =>
+    refine ⟨(Fo + 1) + 1 + 1, ?_⟩
+    intro ws s W0 K hwf hlay hg ht hw0 _
+    obtain ⟨hwfa, _⟩ := hwf
+    obtain ⟨_, le, _, _⟩ := hlay
+    have ht : s.toks = W0 ++ (⟨.WORD, f.name⟩ :: ⟨.OPEN_PAREN, ['(']⟩ ::
+        (blankTok (blank1 ws) ++ (toksF arg (rest1 ws) ++
+          (blankTok (blank1 (afterF arg (rest1 ws))) ++ ⟨.CLOSE_PAREN, [')']⟩ :: K)))) := by
+      rw [ht]; simp [toksF, openTok, closeTok]
+    refine tot_mono (value_callG f (R := fun aks => ∃ x, opKids aks = [x] ∧ RepF x arg) hg ht hw0
+      (fun aks ⟨x, h, _⟩ => ⟨x, [], h⟩) fun s6 ht6 g6 =>
+        callArguments_wrap g6 (allWS_blankTok (blank1 (afterF arg (rest1 ws)))) fun s1 ht1 g1 =>
+          argsLoop_oneF ho (rest1 ws) s1 _ _ K hwfa le g1 (ht1.trans ht6) (allWS_blankTok _)
+            (allWS_blankTok _))
+      fun r s' ⟨cur, Wt, idc, ks, nm, aid, aks, hr, ht', hf', hWt, hks, hnk, hnt, ⟨x, hx1, hx⟩,
+        hpos, g', n', e'⟩ => ?_
+    exact ⟨cur, Wt, _, hr, ht', hf', hWt, .call1 hks hnk hnt hx1 hx, hpos, g', n', e'⟩
+  | some n =>
+    refine ⟨(Fo + ((0 + 2 + 1 + 1) + 1) + 1) + 1 + 1, ?_⟩
+    intro ws s W0 K hwf hlay hg ht hw0 _
+    obtain ⟨hwfa, hwn⟩ := hwf
+    obtain ⟨_, hnp⟩ := hwn n rfl
+    obtain ⟨_, le, _, _⟩ := hlay
+    have ht : s.toks = W0 ++ (⟨.WORD, f.name⟩ :: ⟨.OPEN_PAREN, ['(']⟩ ::
+        (blankTok (blank1 ws) ++ (toksF arg (rest1 ws) ++
+        (blankTok (blank1 (afterF arg (rest1 ws))) ++ (⟨.COMMA, [',']⟩ ::
+          (blankTok (blank1 (rest1 (afterF arg (rest1 ws)))) ++ (⟨.NUMBER, renderNumber n⟩ ::
+            (blankTok (blank1 (rest1 (rest1 (afterF arg (rest1 ws))))) ++
+              ⟨.CLOSE_PAREN, [')']⟩ :: K)))))))) := by
+      rw [ht]; simp [toksF, openTok, closeTok, commaTok]
+    refine tot_mono (value_callG f (R := fun aks => ∃ x y, opKids aks = [x, y] ∧ RepF x arg ∧
+        y.kind = .NUMBER ∧ y.hasChildren = true ∧ y.text = renderNumber n) hg ht hw0
+      (fun aks ⟨x, y, h, _⟩ => ⟨x, [y], h⟩) fun s6 ht6 g6 =>
+        callArguments_wrap g6
+          (allWS_blankTok (blank1 (rest1 (rest1 (afterF arg (rest1 ws)))))) fun s1 ht1 g1 =>
+          argsLoop_twoF ho n (rest1 ws) s1 _ _ _ _ K hwfa le g1 (ht1.trans ht6) (allWS_blankTok _)
+            (allWS_blankTok _) (allWS_blankTok _) (allWS_blankTok _))
+      fun r s' ⟨cur, Wt, idc, ks, nm, aid, aks, hr, ht', hf', hWt, hks, hnk, hnt,
+        ⟨x, y, hxy, hx, hyk, hyc, hyt⟩, hpos, g', n', e'⟩ => ?_
+    exact ⟨cur, Wt, _, hr, ht', hf', hWt, .call2 hks hnk hnt hxy hx hyk hyc hnp hyt, hpos, g', n',
+      e'⟩
+
 end Anything.FU
